@@ -61,6 +61,10 @@ type summary struct {
 	SkippedNonAddr int            `json:"accesses_skipped_not_addressable"`
 	MapRanges      int            `json:"map_range_loops_put_behind_the_tape"`
 	MapRangesLeft  []string       `json:"map_range_loops_not_rewritten"`
+	// primitives the simulator took over in this tree (beyond mutexes)
+	GoStmts   int `json:"go_statements_turned_into_scheduled_tasks"`
+	ChanOps   int `json:"channel_sends_and_receives_made_cooperative"`
+	OnceTypes int `json:"sync_once_and_waitgroup_types_rewritten"`
 }
 
 func fatal(f string, a ...interface{}) {
@@ -135,16 +139,23 @@ func main() {
 	}
 
 	otherSync := map[string]bool{}
+	handledSync := false
 	for fi, f := range files {
 		fname := filepath.Base(names[fi])
 		usesUnsafe := false
 		// 1. mutex type rewrite + detection of other primitives
 		ast.Inspect(f, func(n ast.Node) bool {
 			switch x := n.(type) {
-			case *ast.GoStmt:
-				otherSync["go statement "+fname+":"+fmt.Sprint(fset.Position(x.Pos()).Line)] = true
-			case *ast.ChanType:
-				otherSync["channel type "+fname+":"+fmt.Sprint(fset.Position(x.Pos()).Line)] = true
+			case *ast.GoStmt, *ast.ChanType:
+				handledSync = true // go statements become scheduled tasks, sends / receives cooperative
+			case *ast.SelectStmt:
+				otherSync["select statement "+fname+":"+fmt.Sprint(fset.Position(x.Pos()).Line)] = true
+			case *ast.RangeStmt:
+				if tv, ok := info.Types[x.X]; ok {
+					if _, isChan := tv.Type.Underlying().(*types.Chan); isChan {
+						otherSync["range over channel "+fname+":"+fmt.Sprint(fset.Position(x.Pos()).Line)] = true
+					}
+				}
 			case *ast.SelectorExpr:
 				if id, ok := x.X.(*ast.Ident); ok {
 					if pn, ok := info.Uses[id].(*types.PkgName); ok {
@@ -152,6 +163,8 @@ func main() {
 						case "sync":
 							switch x.Sel.Name {
 							case "Mutex", "RWMutex":
+							case "Once", "WaitGroup":
+								handledSync = true // rewritten to cooperative versions below
 							default:
 								otherSync["sync."+x.Sel.Name+" "+fname+":"+fmt.Sprint(fset.Position(x.Pos()).Line)] = true
 							}
@@ -191,6 +204,8 @@ func main() {
 		if ins.inserted > 0 {
 			usesUnsafe = true
 		}
+		// 3. goroutines, channel operations, sync.Once / sync.WaitGroup
+		rewriteConcurrency(f, info, &sum)
 		var buf bytes.Buffer
 		if err := format.Node(&buf, fset, f); err != nil {
 			fatal("print %s: %v", fname, err)
@@ -210,12 +225,232 @@ func main() {
 	for k := range otherSync {
 		sum.OtherSync = append(sum.OtherSync, k)
 	}
+	if handledSync {
+		// not foreign to the simulator, but synchronisation the vector clocks
+		// over lock events do not model
+		sum.OtherSync = append(sum.OtherSync, "sync (handled): goroutines / channels / Once / WaitGroup are scheduled cooperatively; the vector-clock check is off, the race detector remains")
+	}
 	sort.Strings(sum.OtherSync)
 	if err := os.WriteFile(filepath.Join(dir, "zz_verif_sim.go"), []byte(genFile(sum.FieldIDs)), 0o644); err != nil {
 		fatal("write generated file: %v", err)
 	}
 	out, _ := json.Marshal(&sum)
 	fmt.Println(string(out))
+}
+
+// rewriteConcurrency turns go statements into scheduled tasks and channel
+// sends / receives (outside select) into cooperative polling operations.
+func rewriteConcurrency(f *ast.File, info *types.Info, sum *summary) {
+	call := func(name string, args ...ast.Expr) *ast.CallExpr {
+		return &ast.CallExpr{Fun: ast.NewIdent(name), Args: args}
+	}
+	var exprFix func(e ast.Expr) ast.Expr
+	exprFix = func(e ast.Expr) ast.Expr {
+		if u, ok := e.(*ast.UnaryExpr); ok && u.Op == token.ARROW {
+			sum.ChanOps++
+			return call("verifRecv", u.X)
+		}
+		return e
+	}
+	tmpN := 0
+	var stmtFix func(st ast.Stmt) ast.Stmt
+	stmtFix = func(st ast.Stmt) ast.Stmt {
+		switch x := st.(type) {
+		case *ast.SendStmt:
+			sum.ChanOps++
+			return &ast.ExprStmt{X: call("verifSend", x.Chan, x.Value)}
+		case *ast.AssignStmt:
+			if len(x.Lhs) == 2 && len(x.Rhs) == 1 {
+				if u, ok := x.Rhs[0].(*ast.UnaryExpr); ok && u.Op == token.ARROW {
+					sum.ChanOps++
+					x.Rhs[0] = call("verifRecv2", u.X)
+				}
+			}
+		case *ast.GoStmt:
+			sum.GoStmts++
+			c := x.Call
+			if fl, ok := c.Fun.(*ast.FuncLit); ok && len(c.Args) == 0 {
+				return &ast.ExprStmt{X: call("verifGo", fl)}
+			}
+			// function value and arguments are evaluated by the go statement
+			// itself, only the call runs in the new goroutine
+			var lhs, rhs []ast.Expr
+			var args []ast.Expr
+			mk := func(e ast.Expr) ast.Expr {
+				tmpN++
+				id := ast.NewIdent(fmt.Sprintf("verifTmp%d", tmpN))
+				lhs = append(lhs, id)
+				rhs = append(rhs, e)
+				return ast.NewIdent(id.Name)
+			}
+			fn := mk(c.Fun)
+			for _, a := range c.Args {
+				args = append(args, mk(a))
+			}
+			inner := &ast.CallExpr{Fun: fn, Args: args, Ellipsis: c.Ellipsis}
+			if c.Ellipsis.IsValid() {
+				inner.Ellipsis = 1
+			}
+			return &ast.BlockStmt{List: []ast.Stmt{
+				&ast.AssignStmt{Lhs: lhs, Tok: token.DEFINE, Rhs: rhs},
+				&ast.ExprStmt{X: call("verifGo", &ast.FuncLit{
+					Type: &ast.FuncType{Params: &ast.FieldList{}},
+					Body: &ast.BlockStmt{List: []ast.Stmt{&ast.ExprStmt{X: inner}}},
+				})},
+			}}
+		}
+		return st
+	}
+	rewriteTree(f, exprFix, stmtFix)
+}
+
+// rewriteTree applies exprFix to every expression slot and stmtFix to every
+// statement slot of the tree (post-order), leaving the communication clauses of
+// select statements alone.
+func rewriteTree(root ast.Node, exprFix func(ast.Expr) ast.Expr, stmtFix func(ast.Stmt) ast.Stmt) {
+	var walk func(n ast.Node)
+	fixExpr := func(e ast.Expr) ast.Expr {
+		if e == nil {
+			return nil
+		}
+		walk(e)
+		return exprFix(e)
+	}
+	fixStmt := func(st ast.Stmt) ast.Stmt {
+		if st == nil {
+			return nil
+		}
+		// two-value receive must be seen before its operand is rewritten
+		st = stmtFixPre(st, stmtFix)
+		walk(st)
+		return st
+	}
+	walk = func(n ast.Node) {
+		switch x := n.(type) {
+		case nil:
+		case *ast.File:
+			for _, d := range x.Decls {
+				walk(d)
+			}
+		case *ast.GenDecl:
+			for _, sp := range x.Specs {
+				if vs, ok := sp.(*ast.ValueSpec); ok {
+					for i := range vs.Values {
+						vs.Values[i] = fixExpr(vs.Values[i])
+					}
+				}
+			}
+		case *ast.FuncDecl:
+			if x.Body != nil {
+				walk(x.Body)
+			}
+		case *ast.BlockStmt:
+			for i := range x.List {
+				x.List[i] = fixStmt(x.List[i])
+			}
+		case *ast.ExprStmt:
+			x.X = fixExpr(x.X)
+		case *ast.AssignStmt:
+			for i := range x.Rhs {
+				x.Rhs[i] = fixExpr(x.Rhs[i])
+			}
+			for i := range x.Lhs {
+				x.Lhs[i] = fixExpr(x.Lhs[i])
+			}
+		case *ast.ReturnStmt:
+			for i := range x.Results {
+				x.Results[i] = fixExpr(x.Results[i])
+			}
+		case *ast.IfStmt:
+			x.Init = fixStmt(x.Init)
+			x.Cond = fixExpr(x.Cond)
+			walk(x.Body)
+			if x.Else != nil {
+				x.Else = fixStmt(x.Else)
+			}
+		case *ast.ForStmt:
+			x.Init = fixStmt(x.Init)
+			x.Cond = fixExpr(x.Cond)
+			x.Post = fixStmt(x.Post)
+			walk(x.Body)
+		case *ast.RangeStmt:
+			x.X = fixExpr(x.X)
+			walk(x.Body)
+		case *ast.SwitchStmt:
+			x.Init = fixStmt(x.Init)
+			x.Tag = fixExpr(x.Tag)
+			walk(x.Body)
+		case *ast.TypeSwitchStmt:
+			x.Init = fixStmt(x.Init)
+			walk(x.Body)
+		case *ast.CaseClause:
+			for i := range x.List {
+				x.List[i] = fixExpr(x.List[i])
+			}
+			for i := range x.Body {
+				x.Body[i] = fixStmt(x.Body[i])
+			}
+		case *ast.SelectStmt:
+			walk(x.Body)
+		case *ast.CommClause:
+			// x.Comm stays as written
+			for i := range x.Body {
+				x.Body[i] = fixStmt(x.Body[i])
+			}
+		case *ast.LabeledStmt:
+			x.Stmt = fixStmt(x.Stmt)
+		case *ast.DeferStmt:
+			walk(x.Call)
+		case *ast.GoStmt:
+			walk(x.Call)
+		case *ast.DeclStmt:
+			walk(x.Decl)
+		case *ast.IncDecStmt:
+			x.X = fixExpr(x.X)
+		case *ast.SendStmt:
+			x.Chan = fixExpr(x.Chan)
+			x.Value = fixExpr(x.Value)
+		case *ast.CallExpr:
+			x.Fun = fixExpr(x.Fun)
+			for i := range x.Args {
+				x.Args[i] = fixExpr(x.Args[i])
+			}
+		case *ast.ParenExpr:
+			x.X = fixExpr(x.X)
+		case *ast.UnaryExpr:
+			x.X = fixExpr(x.X)
+		case *ast.BinaryExpr:
+			x.X = fixExpr(x.X)
+			x.Y = fixExpr(x.Y)
+		case *ast.StarExpr:
+			x.X = fixExpr(x.X)
+		case *ast.SelectorExpr:
+			x.X = fixExpr(x.X)
+		case *ast.IndexExpr:
+			x.X = fixExpr(x.X)
+			x.Index = fixExpr(x.Index)
+		case *ast.SliceExpr:
+			x.X = fixExpr(x.X)
+			x.Low, x.High, x.Max = fixExpr(x.Low), fixExpr(x.High), fixExpr(x.Max)
+		case *ast.TypeAssertExpr:
+			x.X = fixExpr(x.X)
+		case *ast.KeyValueExpr:
+			x.Value = fixExpr(x.Value)
+		case *ast.CompositeLit:
+			for i := range x.Elts {
+				x.Elts[i] = fixExpr(x.Elts[i])
+			}
+		case *ast.FuncLit:
+			walk(x.Body)
+		}
+	}
+	walk(root)
+}
+
+// stmtFixPre applies the statement rewrite (go / send / two-value receive)
+// before the operands of the statement are visited.
+func stmtFixPre(st ast.Stmt, stmtFix func(ast.Stmt) ast.Stmt) ast.Stmt {
+	return stmtFix(st)
 }
 
 func isSyncMutex(t types.Type) bool {
@@ -296,6 +531,12 @@ func rewriteMutexTypes(f *ast.File, info *types.Info, sum *summary) {
 					case "RWMutex":
 						sum.MutexTypes++
 						return &ast.Ident{Name: "VerifRWMutex", NamePos: se.Pos()}
+					case "Once":
+						sum.OnceTypes++
+						return &ast.Ident{Name: "VerifOnce", NamePos: se.Pos()}
+					case "WaitGroup":
+						sum.OnceTypes++
+						return &ast.Ident{Name: "VerifWaitGroup", NamePos: se.Pos()}
 					}
 				}
 			}
@@ -699,6 +940,17 @@ type VerifHook interface {
 	Unlocked(m unsafe.Pointer)
 	// TryLock is TryLock / TryRLock (shared) of the code under test.
 	TryLock(m unsafe.Pointer, name string, shared bool, try func() bool) bool
+	// Wait is called by an operation that would block on something other than
+	// a mutex (channel, WaitGroup): the task is not picked again before some
+	// other task has made progress.
+	Wait(what string)
+	// Unsupported reports an operation the simulator cannot model (the run ends
+	// without verdict, exit 2): a send on an unbuffered channel is a rendezvous
+	// of two blocked goroutines, which cooperative polling cannot produce.
+	Unsupported(what string)
+	// Go starts fn as a task of the simulator (a go statement of the code under
+	// test); start must be called by the spawning goroutine.
+	Go(fn func())
 	// RLock / RUnlocked are the read side of a reader/writer lock: readers
 	// exclude writers, not each other.
 	RLock(m unsafe.Pointer, name string, try func() bool)
@@ -802,6 +1054,112 @@ func (m *VerifRWMutex) TryRLock() bool {
 		return h.TryLock(unsafe.Pointer(m), "", true, m.mu.TryRLock)
 	}
 	return m.mu.TryRLock()
+}
+
+// VerifOnce replaces sync.Once (same semantics; the wait for a Do in progress
+// is cooperative).
+type VerifOnce struct {
+	mu   VerifMutex
+	done bool
+}
+
+func (o *VerifOnce) Do(f func()) {
+	o.mu.Lock()
+	defer o.mu.Unlock()
+	if !o.done {
+		defer func() { o.done = true }()
+		f()
+	}
+}
+
+// VerifWaitGroup replaces sync.WaitGroup: Wait polls cooperatively, the real
+// WaitGroup inside keeps the happens-before edges the race detector needs.
+type VerifWaitGroup struct {
+	wg sync.WaitGroup
+	mu sync.Mutex
+	n  int
+}
+
+func (w *VerifWaitGroup) Add(d int) {
+	w.mu.Lock()
+	w.n += d
+	w.mu.Unlock()
+	w.wg.Add(d)
+}
+
+func (w *VerifWaitGroup) Done() { w.Add(-1) }
+
+func (w *VerifWaitGroup) Wait() {
+	if h := VerifSimHook; h != nil {
+		for {
+			w.mu.Lock()
+			z := w.n <= 0
+			w.mu.Unlock()
+			if z {
+				break
+			}
+			h.Wait("sync.WaitGroup")
+		}
+	}
+	w.wg.Wait()
+}
+
+// verifGo is a go statement of the code under test.
+func verifGo(fn func()) {
+	if h := VerifSimHook; h != nil {
+		h.Go(fn)
+		return
+	}
+	go fn()
+}
+
+// verifRecv is a channel receive outside select: it polls and yields to the
+// simulator instead of blocking the goroutine.
+func verifRecv[T any](ch <-chan T) T {
+	if h := VerifSimHook; h != nil {
+		for {
+			select {
+			case v := <-ch:
+				return v
+			default:
+				h.Wait("channel receive")
+			}
+		}
+	}
+	return <-ch
+}
+
+func verifRecv2[T any](ch <-chan T) (T, bool) {
+	if h := VerifSimHook; h != nil {
+		for {
+			select {
+			case v, ok := <-ch:
+				return v, ok
+			default:
+				h.Wait("channel receive")
+			}
+		}
+	}
+	v, ok := <-ch
+	return v, ok
+}
+
+// verifSend is a channel send outside select.
+func verifSend[T any](ch chan<- T, v T) {
+	if h := VerifSimHook; h != nil {
+		if cap(ch) == 0 && ch != nil {
+			h.Unsupported("send on an unbuffered channel")
+		}
+		for {
+			select {
+			case ch <- v:
+				return
+			default:
+				h.Wait("channel send")
+			}
+		}
+	}
+	ch <- v
 }
 
 // verifMapKeys replaces Go's randomised map iteration order by an order the
